@@ -285,6 +285,20 @@ func BinBV(op string, a, b *Term) *Term {
 			return a
 		}
 	}
+	// division/remainder of a small non-negative value by a non-zero constant: compute in a narrow width
+	// (bit-blasting a 64-bit divider for a 7-bit quotient is what makes size computations slow)
+	if (op == "bvudiv" || op == "bvsdiv" || op == "bvurem" || op == "bvsrem") && b.IsConst() && b.C != 0 && w > 16 {
+		sign := uint64(1) << uint(w-1)
+		if b.C&sign == 0 && KnownBits(a).zero&sign != 0 {
+			if m := umax(a); m < 1<<15 && b.C < 1<<15 {
+				nop := "bvudiv"
+				if op == "bvurem" || op == "bvsrem" {
+					nop = "bvurem"
+				}
+				return ZExt(w, BinBV(nop, Extract(15, 0, a), Const(16, b.C)))
+			}
+		}
+	}
 	res := TS.mk(op, BV(w), 0, "", a, b)
 	if k := KnownBits(res); k.zero|k.one == mask(w) {
 		return Const(w, k.one)
